@@ -5,9 +5,9 @@
    does not leak into later ticks, and values sent to the next tick (defer_tick, tick cycles,
    across_ticks) arrive exactly one tick later.
    Proved for the modelled tick IR [bnode] (count/max/min/first/last/limit are the library's
-   own fold / reduce / generator instances, see Hydro/ModelFlows.v); `across_ticks` is not
-   modelled. *)
-From HV Require Import Hydro.Model Hydro.ModelTick Hydro.ModelFlows Hydro.PBase Hydro.PTick Hydro.PScope.
+   own fold / reduce / generator instances, see Hydro/ModelFlows.v); the body of
+   `across_ticks` is a program of the top-level IR fed with the batches. *)
+From HV Require Import Hydro.Model Hydro.ModelTick Hydro.ModelFlows Hydro.PBase Hydro.PTick Hydro.PScope Hydro.PAcross.
 
 (* the emitted 'tick state machines compute, tick by tick, the list function of the batch, for
    every program of the IR and every history of batches *)
@@ -33,6 +33,18 @@ Theorem C30_cycle_carry :
     nth_error (loop_run body prev bs) (S t) = Some (body (nth t (loop_run body prev bs) []) e).
 Proof. exact loop_carry. Qed.
 Print Assumptions C30_cycle_carry.
+
+(* across_ticks: the body keeps its ('static) state from batch to batch; it is causal, and in tick t
+   it has emitted / holds exactly the denotation of the batches of ticks 0..t *)
+Theorem C30_across_ticks_stream_modelled_ir : forall n bs k, wf_s n -> 0 < k -> bs <> [] ->
+  equiv (ord n) (concat (firstn k (run_s n bs))) (den_s n (flat (firstn k bs))).
+Proof. exact across_stream_prefix. Qed.
+Print Assumptions C30_across_ticks_stream_modelled_ir.
+
+Theorem C30_across_ticks_aggregate_modelled_ir : forall a bs t, wf_a a -> t < length bs ->
+  equiv (aexact a) (nth t (run_a a bs) []) (den_a a (flat (firstn (S t) bs))).
+Proof. exact across_aggregate_at_tick. Qed.
+Print Assumptions C30_across_ticks_aggregate_modelled_ir.
 
 Example C30_defer_example :
   brun t_defer_chain [mkenv [[VN 1]; [VN 7]]; mkenv [[VN 2]; [VN 8]]; mkenv [[VN 3]; [VN 9]]]
